@@ -663,3 +663,49 @@ func poolCtx(i *Inst) string {
 	}
 	return ""
 }
+
+// ---------------------------------------------------------------------------
+// C06: crash consistency at every storage-write boundary.
+
+// CrashOracle enumerates, for every explored transition, every prefix of the
+// storage writes the event issued (across both databases), reopens ledger and
+// state on that image and checks C04 / C01 / C02 and the final synchronisation.
+type CrashOracle struct {
+	base   map[string]map[string][]byte
+	root   string
+	viol   []core.Violation
+	Images int
+	Writes int
+}
+
+func (o *CrashOracle) Before(i *Inst, ev string) {
+	o.base = i.W.Space.Snapshot()
+	o.root = i.W.Space.Root()
+	i.W.Space.StartLog()
+}
+
+func (o *CrashOracle) After(i *Inst, ev string, obs string) {
+	log := i.W.Space.Log()
+	o.Writes += len(log)
+	if ev == "restart" || ev == "query" {
+		return
+	}
+	for n := 0; n <= len(log); n++ {
+		if n == len(log) && n > 0 {
+			// the complete image is the ordinary post-state (also checked: a crash right after the last write)
+		}
+		img := vkvFromImage(o.root, o.base, log, n)
+		o.Images++
+		for _, v := range checkImage(i, img) {
+			v.Key += "." + evKind(ev)
+			v.Summary = fmt.Sprintf("crash after write %d of %d during %s (%s): %s", n, len(log), ev, describeWrites(log, n), v.Summary)
+			o.viol = append(o.viol, v)
+		}
+	}
+}
+
+func (o *CrashOracle) Check(i *Inst, hist []string) []core.Violation {
+	out := o.viol
+	o.viol = nil
+	return out
+}
